@@ -1426,6 +1426,9 @@ def selfcheck(level="quick", use_cache=True):
             with open(tmp, "w") as f:
                 json.dump(r, f)
             os.replace(tmp, cpath)
+            for name in os.listdir(os.path.dirname(cpath)):  # results for older versions of the two files
+                if name.startswith("irsem-selfcheck-%s-" % level) and name.endswith(".json") and name != os.path.basename(cpath):
+                    os.unlink(os.path.join(os.path.dirname(cpath), name))
         except OSError:
             pass
     _MEMO[level] = r
